@@ -187,7 +187,12 @@ func execStep(w *world.World, s Step) bool {
 	case "FailRand":
 		// the read number I (counted from the creation of the conversation) of p's randomness
 		// source fails (short read if Q)
-		p.Rand.FailAt, p.Rand.Short = s.I, s.Q
+		if s.F != "" {
+			// the read number I made by callers of class F (e.g. "smp") fails
+			p.Rand.FailClass, p.Rand.FailClassAt, p.Rand.Short = s.F, s.I, s.Q
+		} else {
+			p.Rand.FailAt, p.Rand.Short = s.I, s.Q
+		}
 	case "Err":
 		w.InjectRaw(p, []byte("?OTR Error: peer could not read the message"))
 	case "Drop":
@@ -692,7 +697,13 @@ func genSchedule(rng *rand.Rand, family string, depth int) *Schedule {
 				}
 			}
 		} else {
-			add(Step{A: "FailRand", P: ps[rng.Intn(2)], I: rng.Intn(depth), Q: rng.Intn(2) == 0})
+			if rng.Intn(3) == 0 {
+				// one of the reads made while building SMP messages (their number is not known in terms of
+				// the running count: the signature scheme draws a varying number of times before)
+				add(Step{A: "FailRand", P: ps[rng.Intn(2)], F: "smp", I: rng.Intn(14), Q: rng.Intn(2) == 0})
+			} else {
+				add(Step{A: "FailRand", P: ps[rng.Intn(2)], I: rng.Intn(depth), Q: rng.Intn(2) == 0})
+			}
 			add(Step{A: "Query", P: "A"})
 			for k := 0; k < 4; k++ {
 				add(Step{A: "Deliver", P: "B"})
